@@ -4,6 +4,7 @@
 -/
 import Rtp.Proofs.WireCanonical
 import Rtp.Proofs.WireViewPred
+import Rtp.Proofs.WireAgree
 import Rtp.Pred.C03
 namespace Rtp.Props.C03
 open Rtp Rtp.Model Rtp.Spec.Wire Rtp.Proofs.Wire
@@ -217,6 +218,17 @@ example : (ExtBlock.oneByte [.pad, .elem 3 [1, 2], .pad, .elem 15 [9], .elem 4 [
     (ExtBlock.oneByte [.pad, .elem 3 [1, 2], .pad, .elem 15 [9], .elem 4 [7]]).ids = [3] ∧
     (ExtBlock.twoByte [.elem 200 [], .pad, .pad, .elem 1 [1, 2, 3]]).WF = true ∧
     (ExtBlock.legacy 0x1234 [1, 2, 3, 4]).WF = true := by decide
+
+/-- "the views decode the same block to the same ids and values" stated between the two decoders
+    directly: `Header.GetExtensionIDs` / `GetExtension` on the header decoded from a well-formed
+    image (no reserved id) and `GetIDs` / `Get` of the one-byte resp. two-byte view on the same
+    block bytes return the same list and, for EVERY id, the same value -/
+theorem c03_views_agree (w : Wire) (b : ExtBlock) (hext : w.ext = some b) (hw : w.WF = true)
+    (hr : w.reserved = false) (r : Header) (k : ViewKind) (hk : Pred.C03.formMatches k b = true) (hnl : k ≠ .raw) :
+    ∃ h n, hdrUnmarshal r w.encode = .ok (h, n) ∧
+      viewGetIDs k b.encode = .ok (getExtensionIDs h) ∧
+      ∀ q, viewGet k b.encode q = .ok (getExtension h q) :=
+  views_agree w b hext hw hr r k hk hnl
 
 /-! ### the known finding `c03_reserved_id` (DESIGN §7 row 2) -/
 
